@@ -112,6 +112,12 @@ CHECKS = {
          'Theorems for every dimension, transform, exponent, c > 0: K_{cL}(cx, cz) = K_L(x, z) for the L2, product and Lpq kernels; lower_median(c * l) = c * lower_median(l). '
          'After real adaptive fits (l2, l2_high_dim, l1, lpq; iters 0-4; early stop / best-restore) the stored bandwidth is compared with base x lower median of the pairwise kernel-norm distances of the transformed training points under the stored feature matrix (order-statistic claim checked in Coq), and predictions on inputs rescaled by 1e-3..1e3 are compared with the unscaled fit.',
          'partial: that a whole fit commutes with scaling uses the solver/median contracts; float effects (eps mask, 1e-30) are bounded by tolerances. Trusted: Coq kernel, vm_compute, real-number axioms, float64 distance recomputation.'),
+
+ 'C15': ('DESIGN.md §4 C15',
+         'Coq proofs (Reals, lists) of the block decomposition of distances and of the one-hot table lookup + block-AGOP entry theorem (Q) + differential fast vs dense vs mpmath closed form + interval-certified fast-path entries',
+         'Theorems for any number of blocks / levels / transform rows: the squared L2 distance (resp. sum of |.|^p) of block-structured rows is the sum over blocks; a one-hot row times a full block matrix is the corresponding row of the transformed identity codes, so a group contributes the table entry D_g[a,b]; an AGOP entry of the column-restricted gradients is the dense entry. '
+         'get_kernel_matrix / get_agop with and without set_categorical_indices are compared on one-hot rows for L2, Lpq (every boundary (p,q)) and product kernels, interleaved layouts, transforms none/diagonal/block-diagonal, and with the documented closed form; L2 fast-path entries are certified against the Coq dense model by `interval`.',
+         'Trusted: Coq kernel, Interval, real-number axioms, mpmath. The product kernel\'s categorical path needs a harness-side batch-size stub on CPU (it queries CUDA unconditionally): observation recorded in DESIGN.md.'),
 }
 
 NOT_YET = 'check not built yet in this session (planned, see DESIGN.md §4)'
